@@ -37,6 +37,8 @@ impl DigitString {
 
     /// Clear DigitString as if it was brand new.
     pub fn reset(&mut self) {
+        #[cfg(feature = "verif")]
+        crate::verif::yield_point();
         self.leading_zeroes = 0;
         self.frozen = false;
         self.marker = MorphologicalMarker::None;
@@ -49,6 +51,8 @@ impl DigitString {
     /// Useful for languages that use some kind of flexion or suffix to mark the end.
     /// (for example, the suffix -th in English ordinals).
     pub fn freeze(&mut self) {
+        #[cfg(feature = "verif")]
+        crate::verif::yield_point();
         self.frozen = true;
     }
 
@@ -59,6 +63,8 @@ impl DigitString {
     /// * only valid in leading position (that is, the buffer still evaluates to 0)
     /// * any number of leading zeroes are accepted and kept.
     pub fn put(&mut self, digits: &[u8]) -> Result<(), Error> {
+        #[cfg(feature = "verif")]
+        crate::verif::yield_point();
         if self.frozen {
             return Err(Error::Frozen);
         }
@@ -88,6 +94,8 @@ impl DigitString {
     ///
     /// If new positions are created in between, they are filled with zeros.
     pub fn put_digit_at(&mut self, digit: u8, position: usize) -> Result<(), Error> {
+        #[cfg(feature = "verif")]
+        crate::verif::yield_point();
         if self.frozen {
             return Err(Error::Frozen);
         }
@@ -112,6 +120,8 @@ impl DigitString {
 
     /// push the given digit string at the right, appending it to the digits already in the buffer.
     pub fn push(&mut self, digits: &[u8]) -> Result<(), Error> {
+        #[cfg(feature = "verif")]
+        crate::verif::yield_point();
         if self.frozen {
             return Err(Error::Frozen);
         }
@@ -121,6 +131,8 @@ impl DigitString {
 
     /// Force put (never fail, unless `self` is frozen)
     pub fn fput(&mut self, digits: &[u8]) -> Result<(), Error> {
+        #[cfg(feature = "verif")]
+        crate::verif::yield_point();
         if self.frozen {
             return Err(Error::Frozen);
         }
@@ -194,6 +206,8 @@ impl DigitString {
     /// Return an error if destination slots are  not free or not 0 or string is frozen.
     /// If there is  nothing on the starting position, first puts 1.
     pub fn shift(&mut self, positions: usize) -> Result<(), Error> {
+        #[cfg(feature = "verif")]
+        crate::verif::yield_point();
         if self.frozen {
             return Err(Error::Frozen);
         }
